@@ -10,6 +10,7 @@ import (
 	"context"
 	"crypto/sha256"
 	"encoding/binary"
+	"errors"
 	"fmt"
 	"math/rand"
 	"sort"
@@ -18,6 +19,7 @@ import (
 
 	apiv1 "github.com/attestantio/go-eth2-client/api/v1"
 	"github.com/attestantio/go-eth2-client/spec/phase0"
+	"github.com/attestantio/vouch/mock"
 	"github.com/attestantio/vouch/services/attestationaggregator"
 	aggstd "github.com/attestantio/vouch/services/attestationaggregator/standard"
 	"github.com/attestantio/vouch/services/attester"
@@ -25,7 +27,6 @@ import (
 	substd "github.com/attestantio/vouch/services/beaconcommitteesubscriber/standard"
 	nullmetrics "github.com/attestantio/vouch/services/metrics/null"
 	signerstd "github.com/attestantio/vouch/services/signer/standard"
-	"github.com/attestantio/vouch/mock"
 	"github.com/rs/zerolog"
 	e2wtypes "github.com/wealdtech/go-eth2-wallet-types/v2"
 	"verif/checks/ctlsim"
@@ -76,9 +77,11 @@ func (s *subRec) SubmitBeaconCommitteeSubscriptions(_ context.Context, subs []*a
 
 // aggWrap: real selection, recorded aggregation.
 type aggWrap struct {
-	real *aggstd.Service
-	mu   sync.Mutex
-	runs []*attestationaggregator.Duty
+	real      *aggstd.Service
+	failSlots map[uint64]bool // slots for which the signer is down when the selection proofs are asked for
+	hold      chan struct{}   // when set, selection proofs wait for it (a slow remote signer)
+	mu        sync.Mutex
+	runs      []*attestationaggregator.Duty
 }
 
 func (a *aggWrap) Aggregate(_ context.Context, d *attestationaggregator.Duty) {
@@ -86,7 +89,18 @@ func (a *aggWrap) Aggregate(_ context.Context, d *attestationaggregator.Duty) {
 	a.runs = append(a.runs, d)
 	a.mu.Unlock()
 }
+func (a *aggWrap) setHold(h chan struct{}) { a.mu.Lock(); a.hold = h; a.mu.Unlock() }
+
 func (a *aggWrap) AggregatorsAndSignatures(ctx context.Context, accounts []e2wtypes.Account, slot phase0.Slot, sizes []uint64) ([]phase0.BLSSignature, []bool, error) {
+	if a.failSlots[uint64(slot)] {
+		return nil, nil, errors.New("signer unavailable")
+	}
+	a.mu.Lock()
+	hold := a.hold
+	a.mu.Unlock()
+	if hold != nil {
+		<-hold
+	}
 	return a.real.AggregatorsAndSignatures(ctx, accounts, slot, sizes)
 }
 
@@ -146,6 +160,19 @@ func history(c *harness.Ctx, id string, r *rand.Rand) {
 	}
 	subs := &subRec{}
 	var aw *aggWrap
+	// In some histories the signer is down for the selection proofs of a few duty slots: nothing is demanded for those
+	// slots, everything for the others (the subscriber works on the slots of an epoch side by side, few at a time).
+	failSlots := map[uint64]bool{}
+	conc := int64(4)
+	if r0.Intn(4) == 0 {
+		conc = int64(1 + r0.Intn(2))
+		for _, ds := range script {
+			for k := 0; k < 1+r0.Intn(2); k++ {
+				failSlots[ds[r0.Intn(len(ds))].Slot] = true
+			}
+		}
+		c.Count("histories_with_failing_selection_proofs", 1)
+	}
 	opts := ctlsim.Options{SlotsPerEpoch: spe, EpochsPerPeriod: 4, StartSlot: start, Validators: vals, Accounts: accts}
 	opts.Subscriber = func(e *ctlsim.Env) beaconcommitteesubscriber.Service {
 		real, err := aggstd.New(ctx, aggstd.WithLogLevel(zerolog.Disabled), aggstd.WithSpecProvider(specP), aggstd.WithMonitor(nullmetrics.New()),
@@ -154,8 +181,8 @@ func history(c *harness.Ctx, id string, r *rand.Rand) {
 		if err != nil {
 			panic(err)
 		}
-		aw = &aggWrap{real: real}
-		s, err := substd.New(ctx, substd.WithLogLevel(zerolog.Disabled), substd.WithProcessConcurrency(4), substd.WithMonitor(nullmetrics.New()), substd.WithChainTimeService(e.Clock),
+		aw = &aggWrap{real: real, failSlots: failSlots}
+		s, err := substd.New(ctx, substd.WithLogLevel(zerolog.Disabled), substd.WithProcessConcurrency(conc), substd.WithMonitor(nullmetrics.New()), substd.WithChainTimeService(e.Clock),
 			substd.WithAttesterDutiesProvider(e.Duties), substd.WithAttestationAggregator(aw), substd.WithBeaconCommitteeSubmitter(subs))
 		if err != nil {
 			panic(err)
@@ -209,12 +236,13 @@ func history(c *harness.Ctx, id string, r *rand.Rand) {
 		return map[string]any{"start_slot": start, "duties": script, "slots_per_epoch": spe, "clock_slot": uint64(env.Clock.CurrentSlot())}
 	}
 	fail := func(key, what string) { c.Violate(key, what, id, detail()) }
+	aborted := false // a subscription call that never returned: nothing further can be judged (and every settle would time out)
 
 	// ---- subscriptions submitted at start for the current and next epoch ----
 	expectSubs := func(e, now uint64) map[[2]uint64]bool {
 		want := map[[2]uint64]bool{}
 		for _, d := range script[e] {
-			if d.Slot > now {
+			if d.Slot > now && !failSlots[d.Slot] {
 				agg := isAggregator(slotSig(accts[d.V], d.Slot, spe), d.Size)
 				want[[2]uint64{d.Slot, d.Committee}] = want[[2]uint64{d.Slot, d.Committee}] || agg
 			}
@@ -259,6 +287,7 @@ func history(c *harness.Ctx, id string, r *rand.Rand) {
 			}
 		}
 		if !ok {
+			aborted = true
 			for k := range want {
 				if got[k] == nil {
 					past := false
@@ -293,12 +322,25 @@ func history(c *harness.Ctx, id string, r *rand.Rand) {
 		}
 	}
 	checkSubs("start", []uint64{epoch, epoch + 1}, start, 0)
+	if aborted {
+		return
+	}
 
 	// ---- attest each remaining duty slot of the epoch and the next; aggregation jobs must follow ----
 	last := (epoch+2)*spe - 1
 	reorgSlot := (epoch+1)*spe + 1 + uint64(r.Intn(int(spe)-2))
 	if r.Intn(3) == 0 {
 		reorgSlot = 0 // no reorg in this history
+	}
+	inflightReorg := r0.Intn(2) == 0
+	if inflightReorg && reorgSlot != 0 {
+		// ... at a slot that has a duty under the assignment of before the reorg
+		for _, d := range script[epoch+1] {
+			if d.Slot > (epoch+1)*spe {
+				reorgSlot = d.Slot
+				break
+			}
+		}
 	}
 	for s := start + 1; s <= last; s++ {
 		env.Clock.SetSlot(phase0.Slot(s))
@@ -314,7 +356,9 @@ func history(c *harness.Ctx, id string, r *rand.Rand) {
 		if s == (epoch+1)*spe {
 			env.HeadEvent(s, 1, 2)
 		}
+		var handed []duty // set when this slot's attestation was handed an assignment that a reorg has since replaced
 		if s == reorgSlot {
+			old := script[epoch+1]
 			fresh := mk(epoch + 1)
 			fresh[0].Slot = s // the slot that is running keeps a duty
 			fresh[0].Size = 8 // ... of a committee in which everybody aggregates
@@ -332,15 +376,58 @@ func history(c *harness.Ctx, id string, r *rand.Rand) {
 			subs.mu.Lock()
 			from := len(subs.subs)
 			subs.mu.Unlock()
-			env.HeadEvent(s, 101, 2)
+			attName := fmt.Sprintf("Attestations for slot %d", s)
+			if _, pending := env.PendingOneOff()[attName]; pending && inflightReorg {
+				// The slot's attestation is under way when the event arrives, and it completes while the refreshed duties
+				// are still being subscribed (the signer is slow): its aggregation jobs are those of the assignment it
+				// was handed, taken from the subscription information stored for it.
+				env.RunDueJobs(env.Clock.StartOfSlot(phase0.Slot(s)).Add(ctlsim.AttDelay))
+				gate := make(chan struct{})
+				env.SetAttestGate(gate)
+				_ = env.Sched.RunJob(ctx, attName)
+				env.SettleBusy()
+				hold := make(chan struct{})
+				aw.setHold(hold)
+				ev := &apiv1.HeadEvent{Slot: phase0.Slot(s)}
+				ev.Block[0], ev.Block[1], ev.PreviousDutyDependentRoot[0], ev.CurrentDutyDependentRoot[0] = byte(s), 0xb1, 101, 2
+				env.Bus.Emit("head", ev)
+				env.SettleBusy()
+				env.SetAttestGate(nil)
+				close(gate)
+				env.Sched.Wait()
+				env.SettleBusy()
+				handed = old
+				for _, d := range old {
+					if d.Slot == s && isAggregator(slotSig(accts[d.V], d.Slot, spe), d.Size) && !failSlots[s] {
+						name := fmt.Sprintf("Beacon block attestation aggregation for slot %d committee %d", s, d.Committee)
+						if _, exists := env.PendingOneOff()[name]; !exists {
+							fail("aggregation-job-missing:attestation-completed-during-duty-refresh", fmt.Sprintf("the attestation of slot %d completed while the refreshed duties of the epoch were being subscribed; no aggregation job exists for committee %d whose validator %d is a selected aggregator", s, d.Committee, d.V))
+						}
+						c.Count("aggregators_judged_during_refresh", 1)
+					}
+				}
+				aw.setHold(nil)
+				close(hold)
+				env.Settle()
+				c.Count("reorgs_with_attestation_under_way", 1)
+			} else {
+				env.HeadEvent(s, 101, 2)
+			}
 			checkSubs("reorg", []uint64{epoch + 1}, s, from)
+			if aborted {
+				return
+			}
 			c.Count("reorgs_with_changed_duties", 1)
+		}
+		judge := script[s/spe] // the assignment this slot's attestation and aggregation are judged by
+		if handed != nil {
+			judge = handed
 		}
 		// run the jobs due in this slot up to the attestation (slot start + 4 s), then look at the aggregation jobs
 		env.RunDueJobs(env.Clock.StartOfSlot(phase0.Slot(s)).Add(ctlsim.AttDelay + time.Second))
 		committees := map[uint64]*duty{} // committee -> an aggregator duty of ours (nil entry = none selected)
 		hasDuty := false
-		for _, d := range script[s/spe] {
+		for _, d := range judge {
 			if d.Slot != s {
 				continue
 			}
@@ -363,7 +450,10 @@ func history(c *harness.Ctx, id string, r *rand.Rand) {
 		if hasDuty && !attestedNow {
 			c.Count("duty_slots_not_attested_(current_slot_at_refresh)", 1)
 		}
-		if hasDuty && attestedNow {
+		if hasDuty && attestedNow && failSlots[s] {
+			c.Count("attested_slots_without_selection_proofs", 1)
+		}
+		if hasDuty && attestedNow && !failSlots[s] {
 			nAgg := 0
 			for k, ad := range committees {
 				name := fmt.Sprintf("Beacon block attestation aggregation for slot %d committee %d", s, k)
@@ -390,7 +480,7 @@ func history(c *harness.Ctx, id string, r *rand.Rand) {
 			}
 			var szs []string
 			nv := 0
-			for _, d := range script[s/spe] {
+			for _, d := range judge {
 				if d.Slot == s {
 					nv++
 					szs = append(szs, fmt.Sprint(d.Size))
@@ -407,7 +497,7 @@ func history(c *harness.Ctx, id string, r *rand.Rand) {
 		aw.mu.Unlock()
 		for _, run := range runs {
 			ok := false
-			for _, d := range script[s/spe] {
+			for _, d := range judge {
 				if d.Slot == uint64(run.Slot) && d.V == uint64(run.ValidatorIndex) && isAggregator(slotSig(accts[d.V], d.Slot, spe), d.Size) {
 					data := &phase0.AttestationData{Slot: run.Slot, Index: phase0.CommitteeIndex(d.Committee), Source: &phase0.Checkpoint{Epoch: 1}, Target: &phase0.Checkpoint{Epoch: phase0.Epoch(uint64(run.Slot) / spe)}}
 					data.BeaconBlockRoot[0] = byte(run.Slot)
@@ -425,6 +515,9 @@ func history(c *harness.Ctx, id string, r *rand.Rand) {
 		// "Prepare for epoch" ran mid-epoch: the following epoch gets subscribed from here on
 		if s%spe == spe/2+1 && s/spe == epoch+1 {
 			checkSubs("prepare", []uint64{epoch + 2}, s, 0)
+			if aborted {
+				return
+			}
 		}
 	}
 }
@@ -514,14 +607,14 @@ var _ = sort.Strings
 
 func main() {
 	harness.Main(&harness.Spec{
-		Property: "C14",
-		Level:    "exploration",
-		Rule:     "controller histories in virtual time with the real beacon committee subscriber and the real aggregator selection (real signer, BLS keys): 3-8 validators with attester duties over three slots per epoch (before, at and after the start instant), 1-3 committees per slot and 1-3 of our validators per committee, committee sizes 8..320 (aggregator rates 100%..5%); subscriptions checked at start (current and next epoch) and after the mid-epoch preparation; every duty slot of two epochs is attested and the aggregation jobs and their runs are checked. distinct = (committees at a slot, committees with a selected aggregator)",
-		Batches:  func(string) int { return 2 },
-		Parallel: 2,
-		Run:      run,
-		MinDistinct: 30,
+		Property:     "C14",
+		Level:        "exploration",
+		Rule:         "controller histories in virtual time with the real beacon committee subscriber and the real aggregator selection (real signer, BLS keys): 3-8 validators with attester duties over three slots per epoch (before, at and after the start instant), 1-3 committees per slot and 1-3 of our validators per committee, committee sizes 8..320 (aggregator rates 100%..5%); subscriptions checked at start (current and next epoch) and after the mid-epoch preparation; every duty slot of two epochs is attested and the aggregation jobs and their runs are checked. distinct = (committees at a slot, committees with a selected aggregator)",
+		Batches:      func(string) int { return 2 },
+		Parallel:     2,
+		Run:          run,
+		MinDistinct:  30,
 		ChildTimeout: func(string) time.Duration { return 40 * time.Minute },
-		Assumptions: []string{"the attester is a recording fake returning one attestation per validator (the real one is judged under C01/C04)", "BLS signatures are deterministic, so the expected slot signature is recomputed with the validator's key over the reference signing root", "a missing subscription is only reported after persisting for 8 s"},
+		Assumptions:  []string{"the attester is a recording fake returning one attestation per validator (the real one is judged under C01/C04)", "BLS signatures are deterministic, so the expected slot signature is recomputed with the validator's key over the reference signing root", "a missing subscription is only reported after persisting for 8 s"},
 	})
 }
